@@ -487,6 +487,11 @@ class NetworkService(ModelElement):
                                                               rel=ABCPropertyGraph.REL_CONNECTS)
         if len(sp) != 5:
             raise TopologyException(f"Network services {self.name} and {ns.name} do not peer!")
+        # a node interface connected to a service is as far from its own service: peer() puts a ServicePort on either side
+        for cp_id in (sp[1], sp[-2]):
+            _, cp_props = self.topo.graph_model.get_node_properties(node_id=cp_id)
+            if cp_props.get(ABCPropertyGraph.PROP_TYPE) != str(InterfaceType.ServicePort):
+                raise TopologyException(f"Network services {self.name} and {ns.name} do not peer!")
         # remove ConnectionPoints and link between them
         self.topo.graph_model.remove_cp_and_links(node_id=sp[1])
         ns.topo.graph_model.remove_cp_and_links(node_id=sp[-2])
